@@ -18,7 +18,7 @@ RULE = ('programs = hand-written corpus (calls, recursion, exceptions, generator
         'module, same-lines-other-name module); tracepoint sets = all singles and all pairs (thorough: triples on 4 programs) '
         'over every executable line + beyond-EOF line + every function + absent function, incl. same-location pairs; a case is '
         'non-trivial when at least one tracepoint fires AND at least one program event of another kind/line does not')
-ASSUMPTIONS = ["'entered' is defined by the 'call' events CPython delivers (a generator function is entered once per resumption)",
+ASSUMPTIONS = ["a function is entered once per invocation: the 'call' events CPython delivers when a generator or coroutine is resumed are not entries",
                'file identity is the basename (as the statement says: a source file with that name)']
 
 KINDS = ['snapshot', 'log', 'metric', 'span']
@@ -291,12 +291,16 @@ def run_case(ctx, desc):
     fired_tp = {i: 0 for i in ids}
     any_fire = False
     any_quiet = False
+    entered = set()       # invocations (frames) seen so far: a function is entered once - resuming a generator / coroutine is a 'call' event, not an entry
     for ev, new in per_event:
         exp = []
+        first_call = ev.prog and ev.kind == 'call' and ev.inv not in entered
+        if ev.prog:
+            entered.add(ev.inv)
         if ev.prog and ev.path in match_paths:
             for tpid, (loc, kind) in zip(ids, tps):
                 hit = (loc[0] == 'line' and ev.kind == 'line' and ev.line == loc[1]) or \
-                      (loc[0] == 'fn' and ev.kind == 'call' and ev.func == loc[1])
+                      (loc[0] == 'fn' and first_call and ev.func == loc[1])
                 if hit:
                     if desc['limits'] == 'default' and fired_tp[tpid] >= 1:
                         continue
